@@ -1,5 +1,405 @@
 import Driver.Common
-open Driver
+import GIV.Model.CachePut
+/-!
+Line protocol of `gim_cacheput` (H := SHA-256, Id := Hsh := byte strings, concrete index codec):
 
-/-- stub: replaced by the group's model driver. -/
-def main : IO Unit := run (fun _ => "bad-op")
+* `replay <now> <init> <tasks> <events> <end>` → `ok <files>` / `reject <event index> <what the model does instead>`
+  - init   : `-` or `;`-separated `d:<hash hex>:<content>` / `a:<id hex>:<content>`
+  - content: `-` | hex | `R<byte hex>x<count>`
+  - tasks  : `;`-separated `<proc>:<op>/<op>/…`; op = `p,<id>,<ok1>,<data1>,<seek2>,<data2>` (data2: `=` | `t<o>` | `c<o>` | content)
+             | `g,<id>` | `f,<id>` | `b,<id>`
+  - events : `|`-separated `<tid>,<n>,<op>,<args…>,<res>`; op prefixed by `!` = the process died right after the call;
+             `<tid>,0,ret,…` = a result reported by the implementation
+  - end    : `done` | `deadlock` | `aborted`
+* `sha <content>` → hex digest
+* `entry <id hex> <out hex> <size> <now>` → hex of the index entry
+-/
+open GIV GIV.CachePut Driver
+
+/-! ## SHA-256 (FIPS 180-4); tied to crypto/sha256 by the correspondence run (file names, `sha` cases). -/
+namespace CPSha
+
+def K : Array UInt32 := #[
+  0x428a2f98, 0x71374491, 0xb5c0fbcf, 0xe9b5dba5, 0x3956c25b, 0x59f111f1, 0x923f82a4, 0xab1c5ed5,
+  0xd807aa98, 0x12835b01, 0x243185be, 0x550c7dc3, 0x72be5d74, 0x80deb1fe, 0x9bdc06a7, 0xc19bf174,
+  0xe49b69c1, 0xefbe4786, 0x0fc19dc6, 0x240ca1cc, 0x2de92c6f, 0x4a7484aa, 0x5cb0a9dc, 0x76f988da,
+  0x983e5152, 0xa831c66d, 0xb00327c8, 0xbf597fc7, 0xc6e00bf3, 0xd5a79147, 0x06ca6351, 0x14292967,
+  0x27b70a85, 0x2e1b2138, 0x4d2c6dfc, 0x53380d13, 0x650a7354, 0x766a0abb, 0x81c2c92e, 0x92722c85,
+  0xa2bfe8a1, 0xa81a664b, 0xc24b8b70, 0xc76c51a3, 0xd192e819, 0xd6990624, 0xf40e3585, 0x106aa070,
+  0x19a4c116, 0x1e376c08, 0x2748774c, 0x34b0bcb5, 0x391c0cb3, 0x4ed8aa4a, 0x5b9cca4f, 0x682e6ff3,
+  0x748f82ee, 0x78a5636f, 0x84c87814, 0x8cc70208, 0x90befffa, 0xa4506ceb, 0xbef9a3f7, 0xc67178f2]
+
+@[inline] def rotr (x : UInt32) (n : UInt32) : UInt32 := (x >>> n) ||| (x <<< (32 - n))
+
+structure St where
+  a : UInt32
+  b : UInt32
+  c : UInt32
+  d : UInt32
+  e : UInt32
+  f : UInt32
+  g : UInt32
+  h : UInt32
+
+def init : St := ⟨0x6a09e667, 0xbb67ae85, 0x3c6ef372, 0xa54ff53a, 0x510e527f, 0x9b05688c, 0x1f83d9ab, 0x5be0cd19⟩
+
+def padding (len : Nat) : Bytes :=
+  let zeros := (119 - len % 64) % 64
+  let bits := len * 8
+  ((0x80 : UInt8) :: List.replicate zeros (0 : UInt8)) ++
+    (List.range 8).map (fun i => (bits >>> (8 * (7 - i))).toUInt8)
+
+def byteAt (m : ByteArray) (i : Nat) : UInt32 := (m.get! i).toUInt32
+
+def schedule (m : ByteArray) (off : Nat) : Array UInt32 :=
+  let w0 : Array UInt32 := (List.range 16).foldl (fun w i =>
+    w.push ((byteAt m (off + 4*i) <<< 24) ||| (byteAt m (off + 4*i + 1) <<< 16) |||
+            (byteAt m (off + 4*i + 2) <<< 8) ||| byteAt m (off + 4*i + 3))) (Array.mkEmpty 64)
+  (List.range 48).foldl (fun w j =>
+    let i := j + 16
+    let w15 := w[i - 15]!
+    let w2 := w[i - 2]!
+    let s0 := rotr w15 7 ^^^ rotr w15 18 ^^^ (w15 >>> 3)
+    let s1 := rotr w2 17 ^^^ rotr w2 19 ^^^ (w2 >>> 10)
+    w.push (w[i - 16]! + s0 + w[i - 7]! + s1)) w0
+
+def round (s : St) (k w : UInt32) : St :=
+  let s1 := rotr s.e 6 ^^^ rotr s.e 11 ^^^ rotr s.e 25
+  let ch := (s.e &&& s.f) ^^^ ((~~~ s.e) &&& s.g)
+  let t1 := s.h + s1 + ch + k + w
+  let s0 := rotr s.a 2 ^^^ rotr s.a 13 ^^^ rotr s.a 22
+  let maj := (s.a &&& s.b) ^^^ (s.a &&& s.c) ^^^ (s.b &&& s.c)
+  let t2 := s0 + maj
+  ⟨t1 + t2, s.a, s.b, s.c, s.d + t1, s.e, s.f, s.g⟩
+
+def compress (s : St) (m : ByteArray) (off : Nat) : St :=
+  let w := schedule m off
+  let r := (List.range 64).foldl (fun s i => round s K[i]! w[i]!) s
+  ⟨s.a + r.a, s.b + r.b, s.c + r.c, s.d + r.d, s.e + r.e, s.f + r.f, s.g + r.g, s.h + r.h⟩
+
+def word (x : UInt32) : Bytes := [(x >>> 24).toUInt8, (x >>> 16).toUInt8, (x >>> 8).toUInt8, x.toUInt8]
+
+def digest (data : Bytes) : Bytes :=
+  let m := (data ++ padding data.length).toByteArray
+  let s := (List.range (m.size / 64)).foldl (fun s i => compress s m (64 * i)) init
+  word s.a ++ word s.b ++ word s.c ++ word s.d ++ word s.e ++ word s.f ++ word s.g ++ word s.h
+
+end CPSha
+
+/-! ## the concrete index-entry codec (`putIndexEntry`'s Sprintf and the checks of `get`) -/
+namespace CPCodec
+
+def hexOf (b : Bytes) : Bytes := (if b.isEmpty then "" else toHex b).toUTF8.toList
+
+def pad20 (s : String) : Bytes :=
+  (List.replicate (20 - s.length) (32 : UInt8)) ++ s.toUTF8.toList
+
+def enc (id out : Bytes) (size : Nat) (now : Int) : Bytes :=
+  lit "v1 " ++ hexOf id ++ lit " " ++ hexOf out ++ lit " " ++ pad20 (toString size) ++ lit " " ++ pad20 (toString now) ++ lit "\n"
+
+def hexNib (c : UInt8) : Option UInt8 :=
+  if 48 ≤ c ∧ c ≤ 57 then some (c - 48)
+  else if 97 ≤ c ∧ c ≤ 102 then some (c - 87)
+  else if 65 ≤ c ∧ c ≤ 70 then some (c - 55)
+  else none
+
+def hexDecode : Bytes → Option Bytes
+  | [] => some []
+  | [_] => none
+  | a :: b :: rest => do
+    let x ← hexNib a
+    let y ← hexNib b
+    let r ← hexDecode rest
+    pure ((x * 16 + y) :: r)
+
+def digits : Bytes → Option Nat
+  | [] => none
+  | ds => ds.foldl (fun (acc : Option Nat) (d : UInt8) => match acc with
+      | none => none
+      | some v => if 48 ≤ d ∧ d ≤ 57 then some (v * 10 + (UInt8.toNat d - 48)) else none) (some 0)
+
+/-- `strconv.ParseInt(s, 10, 64)` after the leading spaces were skipped. -/
+def parseInt (s : Bytes) : Option Int :=
+  let s := s.dropWhile (· == 32)
+  let (neg, ds) := match s with
+    | 45 :: r => (true, r)
+    | 43 :: r => (false, r)
+    | r => (false, r)
+  match digits ds with
+  | none => none
+  | some v =>
+    if neg then (if v ≤ 2^63 then some (-(v : Int)) else none)
+    else (if v < 2^63 then some (v : Int) else none)
+
+def parse (id : Bytes) (bs : Bytes) : Option (Entry Bytes) :=
+  if bs.length ≠ 175 then none else
+  let ix (i : Nat) : UInt8 := bs.getD i 0
+  if ix 0 ≠ 118 ∨ ix 1 ≠ 49 ∨ ix 2 ≠ 32 ∨ ix 67 ≠ 32 ∨ ix 132 ≠ 32 ∨ ix 153 ≠ 32 ∨ ix 174 ≠ 10 then none else
+  match hexDecode ((bs.drop 3).take 64) with
+  | none => none
+  | some eid =>
+    if eid ≠ id then none else
+    match hexDecode ((bs.drop 68).take 64) with
+    | none => none
+    | some out =>
+      match parseInt ((bs.drop 133).take 20) with
+      | none => none
+      | some size =>
+        if size < 0 then none else
+        match parseInt ((bs.drop 154).take 20) with
+        | none => none
+        | some tm => if tm < 0 then none else some ⟨out, size.toNat⟩
+
+end CPCodec
+
+def P : Params Bytes Bytes := ⟨CPSha.digest, CPCodec.enc, CPCodec.parse⟩
+
+abbrev W := World Bytes Bytes
+abbrev Nm := Name Bytes Bytes
+
+/-! ## decoding the request -/
+
+def chars (s : String) : List Char := s.toList
+def dropS (s : String) (n : Nat) : String := String.ofList (s.toList.drop n)
+def headC (s : String) : Char := s.toList.headD ' '
+
+def parseContent (s : String) : Option Bytes :=
+  if headC s == 'R' then
+    match (dropS s 1).splitOn "x" with
+    | [b, n] => do
+      let bb ← fromHex b
+      let k ← n.toNat?
+      match bb with
+      | [x] => some (List.replicate k x)
+      | _ => none
+    | _ => none
+  else fromHex s
+
+def parseName (s : String) : Option Nm :=
+  match headC s with
+  | 'd' => (fromHex (dropS s 1)).map Name.data
+  | 'a' => (fromHex (dropS s 1)).map Name.index
+  | _ => none
+
+def showName : Nm → String
+  | .data h => "d" ++ toHex h
+  | .index id => "a" ++ toHex id
+
+def parseData2 (d1 : Bytes) (s : String) : Option Bytes :=
+  if s == "=" then some d1
+  else match headC s with
+    | 't' => (dropS s 1).toNat?.map fun o => d1.take o
+    | 'c' => (dropS s 1).toNat?.map fun o => d1.take o ++ ((d1.drop o).take 1).map (· ^^^ 0xff) ++ d1.drop (o + 1)
+    | _ => parseContent s
+
+def parseOp (s : String) : Option (Op Bytes) :=
+  match s.splitOn "," with
+  | ["p", id, ok1, d1, sk2, d2] => do
+    let id ← fromHex id
+    let d1 ← parseContent d1
+    let d2 ← parseData2 d1 d2
+    pure (.put id ⟨ok1 == "1", d1, sk2 == "1", d2⟩)
+  | ["g", id] => (fromHex id).map Op.get
+  | ["f", id] => (fromHex id).map Op.getFile
+  | ["b", id] => (fromHex id).map Op.getBytes
+  | _ => none
+
+def parseTask (s : String) : Option (Nat × List (Op Bytes)) :=
+  match s.splitOn ":" with
+  | [p, ops] => do
+    let p ← p.toNat?
+    let ops ← (if ops == "" then some [] else (ops.splitOn "/").mapM parseOp)
+    pure (p, ops)
+  | _ => none
+
+def parseInitItem (s : String) : Option (Nm × Bytes) :=
+  match s.splitOn ":" with
+  | ["d", h, c] => do pure (.data (← fromHex h), ← parseContent c)
+  | ["a", h, c] => do pure (.index (← fromHex h), ← parseContent c)
+  | _ => none
+
+def emptyWorld (now : Int) : W :=
+  { fs := { names := fun _ => none, inodes := fun _ => none, nextIno := 0, fds := fun _ => none, nextFd := 0 },
+    tasks := fun _ => none, now := now, hist := [] }
+
+def addFile (w : W) (p : Nm) (c : Bytes) : W :=
+  let i := w.fs.nextIno
+  { w with fs := { w.fs with names := fun q => if q = p then some i else w.fs.names q,
+                             inodes := fun j => if j = i then some ⟨p, c⟩ else w.fs.inodes j, nextIno := i + 1 } }
+
+/-! ## rendering what the model does -/
+
+def short (h : Bytes) : String := toHex h
+
+def showMode : Mode → String
+  | .rdonly => "RDONLY" | .wronly => "WRONLY" | .rdwr => "RDWR"
+
+def showSys : Sys Bytes Bytes → String
+  | .stat p => "stat," ++ showName p
+  | .open p m c t => "open," ++ showName p ++ "," ++ showMode m ++ (if c then "+CREATE" else "") ++ (if t then "+TRUNC" else "")
+  | .read fd n => "read,fd" ++ toString fd ++ "," ++ toString n
+  | .write fd bs => "write,fd" ++ toString fd ++ "," ++ toHex bs
+  | .ftruncate fd n => "ftruncate,fd" ++ toString fd ++ "," ++ toString n
+  | .close fd => "close,fd" ++ toString fd
+  | .unlink p => "unlink," ++ showName p
+  | .chtimes p => "chtimes," ++ showName p
+
+def showRes : Res → String
+  | .ok => "ok"
+  | .okFd fd => "ok:fd" ++ toString fd
+  | .okSize n => "ok:size=" ++ toString n
+  | .okData bs => "ok:" ++ toHex bs
+  | .okN n => "ok:" ++ toString n
+  | .eof => "eof"
+  | .enoent => "enoent"
+  | .eclosed => "eclosed"
+  | .fail => "fail"
+  | .short k => "short:" ++ toString k
+  | .crashBefore => "crash-before"
+
+def showRet (op : Op Bytes) (r : Result Bytes) : String :=
+  let nm := match op with
+    | .put _ _ => "put" | .get _ => "get" | .getFile _ => "getfile" | .getBytes _ => "getbytes"
+  match r with
+  | .err => "ret," ++ nm ++ ",err"
+  | .putOk out size => "ret," ++ nm ++ ",ok," ++ short out ++ "," ++ toString size
+  | .miss => "ret," ++ nm ++ ",miss"
+  | .entry e => "ret," ++ nm ++ ",ok," ++ short e.out ++ "," ++ toString e.size
+  | .file e c =>
+    let d := c.getD []
+    "ret," ++ nm ++ ",ok," ++ short e.out ++ "," ++ toString e.size ++ "," ++ short (P.H d) ++ "," ++ toString d.length
+  | .bytes d e => "ret," ++ nm ++ ",ok," ++ short e.out ++ "," ++ toString e.size ++ "," ++ short (P.H d) ++ "," ++ toString d.length
+
+def retsOf (w : W) (tid : Nat) : List String :=
+  w.hist.filterMap fun
+    | .ret t op r => if t = tid then some (showRet op r) else none
+    | .indexed _ _ _ => none
+
+/-! ## replay -/
+
+structure RState where
+  w : W
+  consumed : List (Nat × Nat)   -- task ↦ number of `ret` events already matched
+  names : List Nm
+
+def consumedOf (s : RState) (tid : Nat) : Nat := ((s.consumed.find? (·.1 == tid)).map (·.2)).getD 0
+
+def joinC (l : List String) : String := ",".intercalate l
+
+/-- one event; `Except` carries what the model would have shown instead. -/
+def replayEvent (s : RState) (ev : String) : Except String RState :=
+  match ev.splitOn "," with
+  | tidS :: nS :: op :: rest =>
+    match tidS.toNat?, nS.toNat? with
+    | some tid, some n =>
+      if op == "ret" then
+        let k := consumedOf s tid
+        match (retsOf s.w tid)[k]? with
+        | none => .error ("model: task " ++ toString tid ++ " has no result number " ++ toString k)
+        | some r =>
+          if r == joinC (op :: rest) then
+            .ok { s with consumed := (tid, k + 1) :: s.consumed.filter (·.1 != tid) }
+          else .error ("model: " ++ r)
+      else
+        let after := headC op == '!'
+        let opn := if after then dropS op 1 else op
+        let res := rest.getLast?.getD ""
+        let fault : Fault :=
+          if res == "fail" then .fail
+          else if res == "crash-before" then .crashBefore
+          else if (chars res).take 6 == chars "short:" then
+            match (dropS res 6).toNat? with
+            | some k => .short k
+            | none => .none
+          else if after then .crashAfter else .none
+        match step P s.w ⟨tid, fault, n⟩ with
+        | none => .error "model: step not enabled"
+        | some (w1, obs) =>
+          let shown := showSys obs.sys ++ "," ++ showRes obs.res
+          if shown == joinC (opn :: rest) then
+            let nm := match obs.sys with
+              | .stat p => [p] | .open p _ _ _ => [p] | .unlink p => [p] | .chtimes p => [p]
+              | _ => []
+            .ok { s with w := w1, names := nm.filter (fun p => !(s.names.contains p)) ++ s.names }
+          else .error ("model: " ++ shown)
+    | _, _ => .error "bad event"
+  | _ => .error "bad event"
+
+def replayAll : RState → Nat → List String → Except (Nat × String) RState
+  | s, _, [] => .ok s
+  | s, i, ev :: rest =>
+    match replayEvent s ev with
+    | .error e => .error (i, e)
+    | .ok s1 => replayAll s1 (i + 1) rest
+
+/-- insertion sort on strings (small lists). -/
+def sortStrings (l : List String) : List String :=
+  l.foldl (fun acc s =>
+    let (a, b) := acc.span (fun t => t < s)
+    a ++ s :: b) []
+
+def summary (s : RState) : String :=
+  let items := s.names.filterMap fun p =>
+    match s.w.fs.content p with
+    | none => none
+    | some c => some (showName p ++ "=" ++ toString c.length ++ ":" ++ short (P.H c))
+  let items := sortStrings items
+  if items.isEmpty then "-" else ";".intercalate items
+
+def doReplay (nowS initS tasksS evS endS : String) : String :=
+  match nowS.toInt? with
+  | none => "bad-op now"
+  | some now =>
+    match (if initS == "-" then some [] else (initS.splitOn ";").mapM parseInitItem) with
+    | none => "bad-op init"
+    | some files =>
+      match (if tasksS == "-" then some [] else (tasksS.splitOn ";").mapM parseTask) with
+      | none => "bad-op tasks"
+      | some tasks =>
+        let w0 := files.foldl (fun w (p, c) => addFile w p c) (emptyWorld now)
+        let (tk, h) := mkTasks P 0 tasks []
+        let w0 : W := { w0 with tasks := tk, hist := h }
+        let evs := if evS == "-" then [] else evS.splitOn "|"
+        match replayAll ⟨w0, [], files.map (·.1)⟩ 0 evs with
+        | .error (i, e) => "reject " ++ toString i ++ " " ++ e
+        | .ok s =>
+          let ntasks := tasks.length
+          let unfinished := (List.range ntasks).filter fun t => !(s.w.finished t)
+          let unreported := (List.range ntasks).filter fun t => (retsOf s.w t).length != consumedOf s t
+          if endS == "done" && !unfinished.isEmpty then
+            "reject " ++ toString evs.length ++ " model: tasks still running: " ++ toString unfinished
+          else if !unreported.isEmpty then
+            "reject " ++ toString evs.length ++ " model: results not reported by the implementation for tasks " ++ toString unreported
+          else "ok " ++ summary s
+
+def stepLine (line : String) : String :=
+  match line.splitOn " " with
+  | ["replay", now, init, tasks, evs, en] => doReplay now init tasks evs en
+  | ["sha", c] =>
+    match parseContent c with
+    | some d => toHex (P.H d)
+    | none => "bad-op"
+  | ["entry", id, out, size, now] =>
+    match fromHex id, fromHex out, size.toNat?, now.toInt? with
+    | some id, some out, some size, some now => toHex (P.enc id out size now)
+    | _, _, _, _ => "bad-op"
+  | ["parse", id, bs] =>
+    match fromHex id, fromHex bs with
+    | some id, some bs =>
+      match P.parse id bs with
+      | some e => "ok:" ++ toHex e.out ++ ":" ++ toString e.size
+      | none => "miss"
+    | _, _ => "bad-op"
+  | _ => "bad-op"
+
+/-- like `Driver.run`, but flushing after every answer: the harness talks to this driver interactively. -/
+partial def serve (i o : IO.FS.Stream) : IO Unit := do
+  let line ← i.getLine
+  if line.isEmpty then return ()
+  let l := (line.dropEndWhile (fun c => c == '\n' || c == '\r')).toString
+  o.putStrLn (stepLine l)
+  o.flush
+  serve i o
+
+def main : IO Unit := do
+  serve (← IO.getStdin) (← IO.getStdout)
